@@ -7,5 +7,5 @@ CONSTANTS
   Stride = 3
   Emit = FALSE
 VIEW View
-INVARIANTS TypeOK Refines EqRefines RowCount KeepOld NewDefault CloneEq Untouched IterOrder EmitReplay
+INVARIANTS TypeOK Refines EqRefines RowCount KeepOld NewDefault CloneEq CloneEq2 Untouched IterOrder EmitReplay
 CHECK_DEADLOCK FALSE
